@@ -92,6 +92,7 @@ class World:
         self.answers = {}      # need-line -> oracle line
         self.need_rounds = 0
         self.oracle_stats = {"load": 0, "loadstrict": 0, "hmac": 0, "pkv": 0, "dump": 0}
+        self.exec_env = None   # extra environment for the executor run of this world
 
     # ---- script building ----
     def op(self, ex, dr=None, cmp=True, tag="", note=None):
@@ -217,6 +218,7 @@ class World:
     # ---- running ----
     def run(self, parallel_exec=False, env=None):
         """returns (exec_lines(canonical), driver_lines, crash_info)"""
+        env = env or self.exec_env
         ex_lines = [o.ex for o in self.ops]
         dr_lines = [o.dr for o in self.ops]
         rc, eo, err = self.ctx.run_exec(ex_lines, env)
